@@ -80,7 +80,7 @@ package lastgersync
 //@   ensures[committed-only-if-every-statement-succeeded] result == nil ==> stmtFail == old(stmtFail)
 //@   loop 0 invariant p.log == old(p.log) && p.log != nil
 //@   loop 0 invariant stmtFail == old(stmtFail)
-//@   loop 0 invariant shouldRollback && tx != nil && lastTx == tx && tx != old(lastTx) && txState(tx) == 0
+//@   loop 0 invariant tx != nil && lastTx == tx && tx != old(lastTx) && txState(tx) == 0
 
 // ---- the query the aggoracle / FEP resume logic relies on (C16): the pinned SELECT returns, among the rows present,
 // one with the smallest index at or above the requested one; no row at or above it is the only reason for "not found"
